@@ -1,7 +1,7 @@
 """Thorough-tier extras: (1) the property's rules re-run on the no-default-features build
 (configuration C); (2) self-test of the checker: every seeded change this check is recorded to
 catch (seeded/SWEEP.json) must still make it fire on a scratch copy of /repo, and every benign
-refactor patch (selftest/benign) must leave it silent. A self-test failure is an engine error,
+refactor patch (selftest/benign, and selftest/benign_indep/<this property>_*) must leave it silent. A self-test failure is an engine error,
 never a property verdict; patches that no longer apply to an edited /repo are skipped."""
 import glob
 import json
@@ -89,7 +89,10 @@ def selftest(ctx):
                "seeded change %s (breaks %s) still makes this check fire on a scratch copy"
                % (sname, sweep[sname]["breaks"]))
     silent = 0
-    for bp in sorted(glob.glob(os.path.join(VERIF, "selftest", "benign", "*.diff"))):
+    # the author's twins, and the refactorings fresh sub-agents wrote against this property
+    benign = sorted(glob.glob(os.path.join(VERIF, "selftest", "benign", "*.diff"))) + \
+        sorted(glob.glob(os.path.join(VERIF, "selftest", "benign_indep", ctx.prop + "_*.diff")))
+    for bp in benign:
         name = os.path.basename(bp)
         # `<patch>.audit` lists properties whose conservative panic audit is *expected* to ask
         # for a review of the refactored code (a new index or arithmetic site): "Cxx reason"
@@ -112,7 +115,7 @@ def selftest(ctx):
             raise EngineError("self-test: benign refactor %s makes check %s report (%s)\n%s"
                               % (name, ctx.prop, st, out[-600:]))
         silent += 1
-        ctx.ob("SELFTEST", "benign|%s" % name, True, "selftest/benign/%s" % name,
+        ctx.ob("SELFTEST", "benign|%s" % name, True, os.path.relpath(bp, VERIF),
                "behaviour-preserving refactor %s leaves this check silent" % name)
     ctx.count("SELFTEST", "seeded changes that fired", fired)
     ctx.count("SELFTEST", "benign patches silent", silent)
